@@ -462,6 +462,8 @@ def precise_fault(o, ev):
     if m:
         o["fault"], o["fa"], o["fb"] = m.group(1), int(m.group(2)), 0
         return o
+    if f in ("sink:nullbuf", "sink:flags"):
+        return o   # only reachable through sinkeach: keep the enumerating fault in the replay
     m = re.match(r"^sink:(-?\d+):(\d+):(\d+)$", f)
     if m:
         o["fault"], o["fa"], o["fb"] = "sink", max(0, int(m.group(1))), int(m.group(2)) + 3 * int(m.group(3))
